@@ -144,6 +144,63 @@ class Env:
             self.scr.cleanup()
 
 
+def near_sizing(est, rate):
+    """(est, rate) with the same number of hashes and the same number of BYTES but another number of bits, or None."""
+    g0 = common.geometry(est, rate)
+    if g0 is None:
+        return None
+    m0, k0 = g0
+    for e2 in (est, est + 1, est - 1, est + 2, est - 2):
+        if e2 < 1:
+            continue
+        for i in range(-40, 41):
+            r2 = rate * (1.0 + 0.004 * i)
+            g = common.geometry(e2, r2) if 0 < r2 < 1 else None
+            if g and g[0] != m0 and g[1] == k0 and (g[0] + 7) // 8 == (m0 + 7) // 8:
+                return e2, r2
+    return None
+
+
+def cross_kind_sizing(cells):
+    """(est, rate, as_bytes): a sizing whose number of bits is `cells` (as_bytes False) or whose number of BYTES is
+    `cells` (as_bytes True), for the structure of the other cell kind; None if the small grid holds none."""
+    for e2 in range(1, 400):
+        for r2 in (0.05, 0.1, 0.2, 0.01, 0.3, 0.5):
+            g = common.geometry(e2, r2)
+            if g is None:
+                continue
+            if g[0] == cells:
+                return e2, r2, False
+            if (g[0] + 7) // 8 == cells and g[0] > cells:
+                return e2, r2, True
+            if g[0] > 8 * cells + 8:
+                break
+    return None
+
+
+def neighbour_cfg(cfg):
+    """Parameters of a second live structure of the same class: same hash strategy, slightly different sizing."""
+    c = dict(cfg, _decoy=True, subclass=False, neighbour=False, recycle=False)
+    if "rate" in c and "est" in c:
+        g0 = common.geometry(c["est"], c["rate"])
+        for r in (c["rate"] / 2.0, c["rate"] * 0.7, min(0.9, c["rate"] * 1.5)):
+            g = common.geometry(c["est"], r) if 0 < r < 1 else None
+            if g is not None and g != g0 and g[0] <= 4000:
+                c["rate"] = r
+                break
+    if isinstance(c.get("sizing"), dict):
+        sz = dict(c["sizing"])
+        if "width" in sz:
+            sz["width"] += 1
+        elif "error_rate" in sz:
+            sz["error_rate"] = sz["error_rate"] * 0.5
+        c["sizing"] = sz
+    for k in ("param", "mqs"):
+        if isinstance(c.get(k), int):
+            c[k] += 1
+    return c
+
+
 def byteslike(payload, variant):
     """The bytes channel accepts any ByteString: bytes, bytearray or memoryview."""
     if variant == 1:
@@ -165,6 +222,13 @@ class Subject:
         self.obj = None
         self.model = {}  # key index -> outstanding count (or 1)
         self.total_adds = 0
+        self.nb = None
+        if cfg.get("neighbour") and not cfg.get("_decoy") and not any(cfg.get(f) for f in ("big", "wideq", "large")):
+            self.nb = type(self)(env, neighbour_cfg(cfg))
+            env.ctx.fault("neighbour")
+        if cfg.get("prior") and not cfg.get("_decoy") and self.name in ("BloomFilter", "BloomFilterOnDisk",
+                                                                        "CountingBloomFilter") and "rate" in cfg:
+            self.prior_life(env, cfg)
         if cfg.get("recycle") and not cfg.get("_decoy"):
             def exercise(hf):
                 env.hf = hf
@@ -184,15 +248,69 @@ class Subject:
             self.cls = lambda: sub
             env.ctx.fault("user_subclass")
 
+    def prior_life(self, env, cfg):
+        """Another structure lived in this process before the subject (same hash strategy object):
+        "near"  - same class, same number of hashes and of BYTES, another number of bits;
+        "cross" - the other cell kind (Bloom <-> counting Bloom) with exactly as many cells as the subject.
+        It takes some keys, answers its statistics, is combined with itself, exported and cleared, and dies."""
+        import probables
+
+        g = common.geometry(cfg["est"], cfg["rate"])
+        if g is None:
+            return
+        m, k = g
+        counting = self.name == "CountingBloomFilter"
+        d = None
+        if cfg["prior"] == "near" and not counting:
+            sz = near_sizing(cfg["est"], cfg["rate"])
+            if sz is not None:
+                d = probables.BloomFilter(sz[0], sz[1], hash_function=env.hf)
+        elif cfg["prior"] == "cross":
+            cells = m if counting else (m + 7) // 8
+            sz = cross_kind_sizing(cells)
+            if sz is not None and (sz[2] if counting else not sz[2]):
+                C = probables.BloomFilter if counting else probables.CountingBloomFilter
+                d = C(sz[0], sz[1], hash_function=env.hf)
+        if d is None:
+            return
+        for i in range(10):
+            d.add(seams.key_of(i))
+            d.current_false_positive_rate()
+            d.estimate_elements()
+        d.union(d)
+        d.intersection(d)
+        d.jaccard_index(d)
+        bytes(d)
+        d.clear()
+        del d
+        env.ctx.fault("prior_life_" + cfg["prior"])
+
     # -- export over one channel; returns payload (bytes, or str for hex)
     def export(self, chan, where=None, style="abs"):
         obj = self.obj
         if chan == "bytes":
             return bytes(obj)
         if chan == "fileobj":
-            sink = seams.SimFile()
+            kind = getattr(self, "sink_kind", 0)
+            if kind == 0:
+                sink = seams.SimFile()  # raw, not seekable
+                obj.export(sink)
+                return sink.getvalue()
+            # a seekable binary stream, empty or already holding a header with the position behind it: the export
+            # goes where the stream stands and what was written before stays
+            import io
+
+            header = b"" if kind == 1 else b"HDR:" + bytes(range(37))
+            sink = io.BytesIO()
+            sink.write(header)
             obj.export(sink)
-            return sink.getvalue()
+            whole = sink.getvalue()
+            if whole[:len(header)] != header:
+                raise Violation("export_overwrote_stream", f"{self.name}.export(stream positioned at {len(header)}) changed "
+                                                           f"the {len(header)} bytes written before", {"class": self.name,
+                                                                                                    "chan": "fileobj"})
+            self.env.ctx.fault("export_into_positioned_stream" if header else "export_into_seekable_stream")
+            return whole[len(header):]
         if chan == "path":
             d, name = where
             spelled = self.env.scr.spell(d, name, style)
@@ -731,4 +849,8 @@ def gen_cfg_for(name, rng):
     cfg["subclass"] = rng.chance(1, 10)
     # a short-lived structure of the same class with another hash-strategy object precedes the subject (Env.recycle)
     cfg["recycle"] = rng.chance(1, 6)
+    # a second live structure of the same class, same strategy, slightly different sizing (core.Scenario.neighbour_step)
+    cfg["neighbour"] = rng.chance(1, 6)
+    # a structure of near-identical geometry / of the other cell kind with the same number of cells lived before
+    cfg["prior"] = rng.weighted([(8, None), (1, "near"), (1, "cross")])
     return cfg
